@@ -4,7 +4,7 @@
    Common.bad_indices. *)
 From Coq Require Import ZArith List Bool.
 Import ListNotations.
-Require Import SV.Common SV.C11.Base SV.C11.Utf8 SV.C11.Gen_events SV.C11.Envelope SV.C11.Tick SV.C11.Notify SV.C11.Routing SV.C11.Capture SV.C11.Listeners SV.C11.Register.
+Require Import SV.Common SV.C11.Base SV.C11.Utf8 SV.C11.Gen_events SV.C11.Envelope SV.C11.Tick SV.C11.Notify SV.C11.Routing SV.C11.Capture SV.C11.Listeners SV.C11.Register SV.C11.Pipe.
 Open Scope Z_scope.
 
 Definition otext_eqb := option_eqb zlist_eqb.
@@ -150,3 +150,9 @@ Definition check_blocks (c : Z * list (list bytes) * list bytes) : bool :=
 Definition check_flush (c : proc * list (evclass * bytes) * (Z * bool * bool * Z) * list (evclass * option text)) : bool :=
   let '(p, held, (es, tq, ee, now), r) := c in
   rendered_eqb (rendered (finish_with_output p held es tq ee now)) r.
+
+(* Subprocess.write / handle_write_event over a pipe with finite room: bytes the
+   listener received and bytes still in input_buffer *)
+Definition check_pipe (c : list piop * bytes * bytes) : bool :=
+  let '(l, got, buf) := c in
+  let p := pi_run l in zlist_eqb (pi_got p) got && zlist_eqb (pi_buf p) buf.
